@@ -290,7 +290,7 @@ def probe_finding(f, crd):
 # evidence, replays
 # ---------------------------------------------------------------------------------------------------
 def write_replay(pid, payload):
-    d = os.path.join(VERIF, 'replays')
+    d = os.environ.get('CRD_REPLAY_DIR', os.path.join(VERIF, 'replays'))
     os.makedirs(d, exist_ok=True)
     h = hashlib.sha1(json.dumps(payload, sort_keys=True).encode()).hexdigest()[:12]
     path = os.path.join(d, '%s-%s.json' % (pid, h))
@@ -298,7 +298,8 @@ def write_replay(pid, payload):
     return path
 
 def write_evidence(pid, tier, seed, t0, obligations, discharged, checker_cmd, streams, violations, extra):
-    os.makedirs(os.path.join(VERIF, 'evidence'), exist_ok=True)
+    evdir = os.environ.get('CRD_EVIDENCE_DIR', os.path.join(VERIF, 'evidence'))
+    os.makedirs(evdir, exist_ok=True)
     samples = []
     for s in streams:
         samples += ['%s: %s' % (s['name'], x) for x in s['samples'][:3]]
@@ -319,7 +320,7 @@ def write_evidence(pid, tier, seed, t0, obligations, discharged, checker_cmd, st
     ev = dict(property_id=pid, tier=tier, seed=seed, level='proof', coverage=cov,
               assumptions=TRUSTED_BASE + extra.get('assumptions', []),
               wall_s=round(time.time() - t0, 2), violations=violations)
-    json.dump(ev, open(os.path.join(VERIF, 'evidence', pid + '.json'), 'w'), indent=1, ensure_ascii=False)
+    json.dump(ev, open(os.path.join(evdir, pid + '.json'), 'w'), indent=1, ensure_ascii=False)
 
 # ---------------------------------------------------------------------------------------------------
 # the check of one property
@@ -413,12 +414,12 @@ def check_property(pid, tier, seed):
         rc = 0
         if unknown:
             for v in unknown[:5]:
-                path = write_replay(pid, dict(property=pid, kind='failing-input', **v))
+                path = write_replay(pid, dict(property=pid, kind='failing-input', seed=seed, tier=tier, **v))
                 print("VIOLATION property=%s replay=%s" % (pid, path))
             rc = 1
         elif problems:
             # a proof obligation or the tie no longer checks and no concrete failing input was found
-            path = write_replay(pid, dict(property=pid, kind='unchecked', no_longer_checks=problems[:20],
+            path = write_replay(pid, dict(property=pid, kind='unchecked', seed=seed, tier=tier, no_longer_checks=problems[:20],
                                           note='no failing input found by the search; the property is no longer shown to hold'))
             print("VIOLATION property=%s replay=%s no-failing-input-found" % (pid, path))
             rc = 1
@@ -448,10 +449,48 @@ def setup():
     return 0
 
 def replay(path):
-    import props_extra
+    """re-run what a replay file records against /repo's CURRENT tree: the stream that produced the failing input
+    (same seed and tier, so the same input is generated again) or, for an unchecked obligation, the whole check.
+    exit 1 + VIOLATION line if it still fails, 0 if it no longer does."""
     r = json.load(open(path))
-    print(json.dumps(r, indent=1, ensure_ascii=False))
-    return props_extra.replay(r)
+    pid = r.get('property')
+    seed, tier = int(r.get('seed', 1)), r.get('tier', 'quick')
+    print("replaying %s (%s): %s" % (path, r.get('kind'), str(r.get('what', r.get('note', '')))[:300]))
+    if r.get('kind') != 'failing-input' or r.get('stream') not in all_stream_names():
+        return check_property(pid, tier, seed)
+    import smfdec
+    scratch = tempfile.mkdtemp(prefix='crdverif-')
+    try:
+        ok, msg = regenerate()
+        crd, harness = build_real(scratch)
+        built, out = lake_build(['crd_driver'])
+        if not built:
+            raise Infra("driver does not build:\n" + out[-2000:])
+        st = run_stream(r['stream'], harness, crd, scratch, seed, tier)
+        again = False
+        for o in st.get('oracle', []):
+            if o.get('input') == r.get('input') and o.get('what') == r.get('what'):
+                again = True
+                print("still fails: %s\n  input: %s\n  observed: %s" % (o.get('what'), str(o.get('input'))[:1000], str(o.get('observed'))[:1000]))
+        for d in st['diffs']:
+            if d['request'][:4000] == r.get('input'):
+                ra, mo = smfdec.project(pid, d['real']), smfdec.project(pid, d['model'])
+                if ra != mo:
+                    again = True
+                    print("still fails: real crd differs from the verified model\n  request: %s\n  real:  %s\n  model: %s" % (d['request'][:1000], str(ra)[:800], str(mo)[:800]))
+        if again:
+            print("VIOLATION property=%s replay=%s" % (pid, path))
+            return 1
+        print("the recorded input no longer fails on the current tree")
+        return 0
+    finally:
+        shutil.rmtree(scratch, ignore_errors=True)
+
+def all_stream_names():
+    names = set()
+    for c in PROPS.values():
+        names.update(c.get('streams', []))
+    return names
 
 def main(argv):
     try:
